@@ -19,41 +19,45 @@ serializers = {
 }
 
 def dictify_complex_values(data: dict) -> dict:
-    for key, value in data.items():
+    def dictify(value):
         if isinstance(value, complex):
-            data[key] = {'real': value.real, 'imag': value.imag}
-    return data
+            return {'real': value.real, 'imag': value.imag}
+        return value
+    return {key: dictify(value) for key, value in data.items()}
 
 def undictify_complex_values(data: dict) -> dict:
-    for key, value in data.items():
+    def undictify(key, value):
         if isinstance(value, dict) and sorted(list(value.keys())) == sorted(['real', 'imag']):
-            data[key] = complex(value['real'], value['imag'])
+            return complex(value['real'], value['imag'])
         if isinstance(value, dict) and sorted(list(value.keys())) == sorted(['abs', 'phase']):
             if value['abs'] < 0:
-                raise ValueError("abs value of '{key}' may not be negative")
-            data[key] = value['abs'] * complex(np.cos(value['phase']), np.sin(value['phase']))
+                raise ValueError(f"abs value of '{key}' may not be negative")
+            return value['abs'] * complex(np.cos(value['phase']), np.sin(value['phase']))
         if isinstance(value, dict) and sorted(list(value.keys())) == sorted(['abs', 'phase_deg']):
             if value['abs'] < 0:
-                raise ValueError("abs value of '{key}' may not be negative")
+                raise ValueError(f"abs value of '{key}' may not be negative")
             phase_rad = np.deg2rad(value['phase_deg'])
-            data[key] = value['abs'] * complex(np.cos(phase_rad), np.sin(phase_rad))
-    return data
+            return value['abs'] * complex(np.cos(phase_rad), np.sin(phase_rad))
+        return value
+    return {key: undictify(key, value) for key, value in data.items()}
 
 def dictify_all_complex_values(data: dict) -> dict:
-    for key, value in data.items():
+    def dictify_nested(value):
         if isinstance(value, dict):
-            data[key] = dictify_all_complex_values(value)
+            return dictify_all_complex_values(value)
         if isinstance(value, list):
-            data[key] = [dictify_all_complex_values(v) if isinstance(v, dict) else v for v in value]
-    return dictify_complex_values(data)
+            return list(dictify_all_complex_values(dict(enumerate(value))).values())
+        return value
+    return dictify_complex_values({key: dictify_nested(value) for key, value in data.items()})
 
 def undictify_all_complex_values(data: dict) -> dict:
-    for key, value in data.items():
+    def undictify_nested(value):
         if isinstance(value, dict):
-            data[key] = undictify_all_complex_values(value)
+            return undictify_all_complex_values(value)
         if isinstance(value, list):
-            data[key] = [undictify_all_complex_values(v) if isinstance(v, dict) else v for v in value]
-    return undictify_complex_values(data)
+            return list(undictify_all_complex_values(dict(enumerate(value))).values())
+        return value
+    return undictify_complex_values({key: undictify_nested(value) for key, value in data.items()})
 
 def serialize(data: T, format: str, dict_processor: Callable[[T], dict] = dictify_all_complex_values) -> str:
     serializer = serializers.get(format, None)
